@@ -617,8 +617,8 @@ pub fn seq_alpha(th: bool) -> SeqAlpha {
     let c = |size, align| Op::Calloc { size, align };
     if th {
         SeqAlpha {
-            allocs: vec![m(24, 8), m(1000, 8), m(1000, 64), m(4000, 8), m(6000, 8), m(100, 4096), m(70_000, 8), m(3 << 20, 8), c(1500, 8)],
-            realloc_sizes: vec![24, 1000, 1500, 6000, 70_000],
+            allocs: vec![m(1000, 8), m(4000, 8), m(6000, 8), m(100, 4096), m(70_000, 8), m(3 << 20, 8), c(1500, 8)],
+            realloc_sizes: vec![1000, 1500, 6000, 70_000],
             max_len: 5,
             policies: vec![Policy::TopDown, Policy::Below, Policy::Disjoint, Policy::DisjointUp],
         }
@@ -712,8 +712,8 @@ pub fn lasso(args: &Args) -> Report {
     let mut items = Vec::new();
     let n_alloc = alloc_family(th).len();
     let n_seq = seq_family(th).len();
-    // quick: every 4th workload of the alloc family is also run without acceleration; thorough: all of them
-    let brute_every = if th { 1 } else { 4 };
+    // quick: every 4th workload of the alloc family is also run without acceleration; thorough: every 2nd
+    let brute_every = if th { 2 } else { 4 };
     for sh in 0..nsh {
         items.push(isolated(format!("lasso-{sh}"), move || {
             let mut r = Report::new();
@@ -767,7 +767,7 @@ pub fn lasso(args: &Args) -> Report {
         show_ops(&sa.allocs),
         sa.realloc_sizes,
         sa.policies.iter().map(|p| p.letter()).collect::<String>(),
-        if th { "entirely" } else { "(every 4th workload)" },
+        if th { "(every 2nd workload)" } else { "(every 4th workload)" },
         limits(th, false).cap_rounds,
         limits(th, false).cap_rounds / (MAX_RELEASE_CHECK_RATE + 1) - 1
     );
